@@ -139,6 +139,7 @@ def isocol_rule(P, R):
 def run(P, R, tier):
     isocol_rule(P, R)
     rangeinit_rule(P, R)
+    phasecoef_rule(P, R)
     R.undecided += ["mole balance of every element within the declared uncertainties; min..max ranges (solver output)",
                     "which subsets of phases the search visits; isotope balances"]
     R.rule("C18.sign", "one sign convention from the input word to the solver's acceptance test: precipitate <= 0, dissolve >= 0, mixing fractions >= 0", minimum=7)
@@ -414,3 +415,45 @@ def init_rule(P, R):
     else:
         R.violation("C18.init", "setup_inverse:delta", "the sign-constraint vector is zero-filled at line %d after a store at line %d: the `only positive adjustments` constraint of an element "
                     "absent from a solution is erased" % (max(fills), min(stores)), file=f["file"], line=max(fills), function=f["q"])
+
+
+def phasecoef_rule(P, R):
+    """"Each reported model satisfies, for every element, the mole balance between ... phase transfers ...": the column of a phase in the
+    mole-balance matrix receives, for every species of the phase's reaction, stoichiometric coefficient x atoms of the master element
+    per species, in the row of that master (`row = m->in`).  The atoms factor must be read from the same master m (`coef = m->coef`:
+    2 for N2, O2, H2): taken from another master (the element's primary, whose coefficient is 1) a mole of N2(g) enters the N row once
+    instead of twice and every transfer of such a phase is reported doubled."""
+    RULE = "C18.phasecoef"
+    R.rule(RULE, "setup_inverse, phase columns: the atoms-per-species factor is read from the master whose row receives the entry", minimum=1)
+    f = P.one("Phreeqc::setup_inverse")
+    loops = [x for x in T.walk(f["body"]) if x[0] == "For" and T.is_node(x[3]) and any(y[0] == "Member" and y[2].endswith("::phases") for y in T.walk(x[3]))]
+    n = 0
+    for lp in loops:
+        body = lp[5]
+        coefs, rows, uses = [], [], False
+        for x in T.walk(body):
+            if x[0] == "Bin" and x[2] == "=":
+                l, r = T.strip_casts(x[3]), T.strip_casts(x[4])
+                if T.is_node(l) and l[0] == "Ref" and l[3] == "coef":
+                    for y in T.walk(x[4]):          # also `coef = (m->coef > 0) ? m->coef : 1.0`
+                        if y[0] == "Member" and y[2] == "master::coef":
+                            coefs.append((x[1], " ".join(T.text(y[3]).split())))
+                if T.is_node(l) and l[0] == "Ref" and T.is_node(r) and r[0] == "Member":
+                    if l[3] == "row" and r[2] == "master::in" and T.is_node(T.strip_casts(r[3])) and T.strip_casts(r[3])[0] == "Ref" and T.strip_casts(r[3])[2] == "local":
+                        rows.append((x[1], " ".join(T.text(r[3]).split())))
+                if any(y[0] == "Bin" and y[2] == "*" and any(z[0] == "Ref" and z[3] == "coef" for z in T.walk(y)) for y in T.walk(x[4])) and any(
+                        y[0] == "Member" and y[2] == "Phreeqc::my_array" for y in T.walk(x[3])):
+                    uses = True
+        if not coefs or not uses:
+            continue
+        n += 1
+        rowbases = {b for _, b in rows if b != "master_alk"}
+        for line, b in sorted(set(coefs)):
+            inst = "phases@%d" % line
+            if b in rowbases:
+                R.ok(RULE, inst, "row = %s->in and coef = %s->coef" % (b, b))
+            else:
+                R.violation(RULE, inst, "the entry goes to the row of `%s` but the atoms-per-species factor is read from `%s`: for species with more than one atom of the master element "
+                            "(N2, O2, H2) the phase enters the element's mole balance with the wrong weight" % (", ".join(sorted(rowbases)) or "?", b), file=f["file"], line=line, function=f["q"])
+    if n < 1:
+        R.anchor_missing(RULE, "setup_inverse: phase-column loop with `token coefficient * coef` not found")
